@@ -36,7 +36,7 @@ var vPow10 = func() []*big.Rat {
 	return out
 }()
 
-var vRelSlack = big.NewRat(1, 1000000000) // 1e-9
+var vRelSlack = big.NewRat(1, 1000000000000) // 1e-12: float64 keeps 1.1e-16 per operation; sums of thousands of terms stay far below
 
 // vVal is an exact value together with the sum of the magnitudes of the terms
 // it was built from (bounds the floating-point error of any summation order).
